@@ -124,14 +124,8 @@ def run_property(repo: Repo, pid: str, tier: str, seed: int, verbose: bool = Fal
     spec = PROPS[pid]
     obs = collect(repo, pid, tier)
     known = load_known()["known"]
-    violations, known_hits = [], []
-    for o in obs:
-        if o.status != "violation":
-            continue
-        if any(known_match(q, o, known) for q in scope(pid)):
-            known_hits.append(o)
-        else:
-            violations.append(o)
+    from .report import partition_known
+    known_hits, violations = partition_known([o for o in obs if o.status == "violation"], known, lambda o: scope(pid))
     errors = [o for o in obs if o.status == "error"]
     n_ob = sum(1 for o in obs if o.status in ("ok", "violation"))
     if n_ob == 0 and not errors:
